@@ -408,5 +408,62 @@ pub fn run(ctx: &mut Ctx) {
             ctx.sample(format!("{} container listing {} packs: pristine verdicts of {} packs", mode.name(), extra + 3, npacks));
             ctx.case_done(fnv(format!("{:?}", spec).as_bytes()), true);
         }
+        // ---- a content pack whose checked range spans several buffers of any plausible size (> 4 MiB, not a
+        // multiple of it): single-byte alterations spread over the whole range, the last bytes included.  Oracle
+        // only (the model's blake3 is not run over megabytes): the pack must verify when pristine and must not
+        // verify after any of the alterations.
+        if round == 0 {
+            let my = case;
+            case += 1;
+            if ctx.wants(my) {
+                let mut crng = rng.fork(my);
+                let len = 4 * 1024 * 1024 + 600_000 + crng.below(900_000) as usize;
+                let items = vec![(crng.bytes(len), util::Hint::No), (crng.bytes(1000), util::Hint::No)];
+                let path = ctx.work.join(format!("c04-big-{}.jbkc", my));
+                match util::guarded(|| util::build_content_pack(&path, Comp::None, &items)) {
+                    Ok(Ok(_)) => {
+                        let orig = std::fs::read(&path).unwrap();
+                        let packs = container::packs_in_file(&orig);
+                        if let Some(p) = packs.iter().find(|p| p.kind == b'c') {
+                            let pv = pack_check(b'c', orig[p.origin..p.origin + p.size].to_vec());
+                            if pv != "true" {
+                                ctx.fail(my, "pristine-pack", &format!("freshly created content pack of {} bytes does not verify: {}", p.size, pv));
+                            }
+                            let cip = p.check_info_pos;
+                            let mut positions: Vec<usize> = vec![64 + 200, cip / 2, cip - 1, cip - 2, cip - 70, cip - 4097, cip - 65537];
+                            for k in 1..=(cip / (1 << 20)) {
+                                positions.push(k * (1 << 20) - 1);
+                                positions.push(k * (1 << 20));
+                                positions.push(k * (1 << 20) + 1 + crng.below(1000) as usize);
+                            }
+                            for _ in 0..6 {
+                                positions.push(128 + crng.below((cip - 200) as u64) as usize);
+                            }
+                            let mut n_alt = 0u64;
+                            for pos in positions {
+                                if pos < 128 || pos >= cip {
+                                    continue;
+                                }
+                                let mut b = orig[p.origin..p.origin + p.size].to_vec();
+                                b[pos] ^= 0x40;
+                                let v = pack_check(b'c', b);
+                                n_alt += 1;
+                                if v == "true" {
+                                    ctx.fail(my, "undetected-big-pack", &format!("content pack with a checked range of {} bytes: check() = true after altering byte {} (mask 40)", cip, pos));
+                                }
+                            }
+                            ctx.add("alterations", n_alt);
+                            ctx.count("big_pack_cases");
+                            ctx.sample(format!("content pack with a checked range of {} bytes: {} single-byte alterations spread over it, all must be detected", cip, n_alt));
+                        } else {
+                            ctx.fail(my, "framing", "no content pack found in the big pack file");
+                        }
+                    }
+                    other => ctx.fail(my, "create", &format!("creation of a big content pack failed: {:?}", other.err())),
+                }
+                ctx.case_done(fnv(b"c04-big") ^ my, true);
+                let _ = std::fs::remove_file(&path);
+            }
+        }
     }
 }
